@@ -375,8 +375,9 @@ def expectOp (s : HState) (src : Option LFrame) (op : String) : P Expect := do
   | "rownums" => return .exact (rowNumsS f (← bytes)) false
   | "eval" =>
     let dst ← bytes
+    let ctx ← next
     let e ← parseEArg
-    return .exact (evalS f dst e) true
+    return .exact (evalS ctx f dst e) true
   | "distinct" =>
     let gbNull ← bool01
     let keys ← parseNames
